@@ -1,6 +1,6 @@
 \* as built: ALL call sequences of length 3 x 4 cache configurations
 CONSTANTS
-  Objs = {1, 2, 3}
+  Objs = {1, 2, 3, 8}
   Types = {"P", "D"}
   Loads <- MC_Loads
   Streams = {4}
